@@ -159,6 +159,8 @@ def rule_b(ctx, idx, A):
             if isinstance(n.value, ast.Attribute) and n.value.attr == "__dict__" or (isinstance(n.value, ast.Call) and isinstance(n.value.func, ast.Name) and n.value.func.id == "vars"):
                 hits.append((n.slice.value, n))
         for attr, node in hits:
+            if isinstance(node, ast.Attribute) and fi is not None and fi.cls is not None and not A.is_command_subclass(fi.cls) and isinstance(node.value, ast.Name) and node.value.id == K.self_name(fi):
+                continue  # an attribute of the same name on another class's own instance (e.g. a program-level flag), not a command's
             sites += 1
             w = K.where(mod, fi)
             con = "%s::store(%s)" % (w, attr)
@@ -284,6 +286,22 @@ def rule_d(ctx, idx, A):
         if isinstance(n, ast.Attribute) and n.attr == A.memo and isinstance(n.ctx, ast.Load):
             reads += 1
             ok = f is A.result_prop or f is A.run
+            if not ok and f is not None:
+                # the stored object looked at for what it *is* (identity, as part of a cache key or a comparison), not used as a
+                # value: nothing is computed from an unfinished command's placeholder - but whether what is keyed on it stays
+                # valid is the caller's business, not this who-may-read rule's
+                top_ = f
+                while getattr(top_, "parent", None) is not None:
+                    top_ = top_.parent
+                par_ = {}
+                for x_ in ast.walk(f.node):
+                    for c_ in ast.iter_child_nodes(x_):
+                        par_[id(c_)] = x_
+                up = par_.get(id(n))
+                identity_only = (isinstance(up, ast.Call) and any(n is a_ for a_ in up.args) and isinstance(up.func, ast.Name) and (up.func.id == "id" or up.func.id[:1] == "_")) \
+                    or (isinstance(up, ast.Compare) and all(isinstance(o_, (ast.Is, ast.IsNot)) for o_ in up.ops))
+                if identity_only and top_.cls is A.program:
+                    raise AnalysisError("C01.d: %s looks at `%s` for its identity only (a key or an `is` test), outside the result accessor: cannot decide whether what depends on that stays valid" % (f.qualname, K.src(n)))
             ctx.ob("C01.d", "%s::read(%s)" % (K.where(mod, f), A.memo), mod.rel, n.lineno, ok,
                    "read inside the protocol itself" if ok else "the memo field is read directly (%s): an unfinished command's value can be observed" % K.src(n),
                    nontrivial=not ok)
